@@ -1,6 +1,239 @@
 import SR.Drv.Loop
-/-! Driver commands for C05 (stub). -/
+import SR.Market.Machine
+/-! Driver commands for C05, job market part.
+
+`mk-run K TC (event ...)`  — model side: replays an observed schedule on the market machine and answers with
+the result of every event (what `pop` returned, the caller's deque after `split_and_push`, `is_closed`,
+`is_shut_down`). Which waiting worker a `notify_one` wakes is the implementation's choice: it is read off
+the `wake` events that follow and checked for admissibility by the machine (`picksOk`); a step the machine
+does not admit answers `!disabled`.
+
+`o-mk K TC (event ...) (result ...)` — oracle side: the observable content of the C05 market theorems
+evaluated on the IMPLEMENTATION's results alone, with no reference to `open_count` or the batch structure:
+jobs are conserved and never duplicated, nobody sleeps while a job is on the market or while nobody else is
+awake, a stop reaches everybody.
+
+events: `(xpush t ...)` `(pop w)` `(wake w)` `(push w n)` `(split w)` `(work w c t ...)` `(drop w)` `(xdrop)`
+`(clone)` `(closed)` `(shut)` `(tfire)`;  results: `park` | `(t ...)` | `t` | `f` | `-`. -/
 namespace SR.Drv.C05
+open SR SR.Market
+
+inductive Ev where
+  | xpush (toks : List Nat)
+  | pop (w : Nat)
+  | wake (w : Nat)
+  | push (w n : Nat)
+  | split (w : Nat)
+  | work (w c : Nat) (fresh : List Nat)
+  | drop (w : Nat)
+  | xdrop
+  | clone
+  | closed
+  | shut
+  | tfire
+deriving Repr, Inhabited
+
+def evOf? : SExp → Option Ev
+  | .list (.atom "xpush" :: ts) => (ts.mapM SExp.nat?).map .xpush
+  | .list [.atom "pop", w] => w.nat?.map .pop
+  | .list [.atom "wake", w] => w.nat?.map .wake
+  | .list [.atom "push", w, n] => do pure (.push (← w.nat?) (← n.nat?))
+  | .list [.atom "split", w] => w.nat?.map .split
+  | .list (.atom "work" :: w :: c :: ts) => do pure (.work (← w.nat?) (← c.nat?) (← ts.mapM SExp.nat?))
+  | .list [.atom "drop", w] => w.nat?.map .drop
+  | .list [.atom "xdrop"] => some .xdrop
+  | .list [.atom "clone"] => some .clone
+  | .list [.atom "closed"] => some .closed
+  | .list [.atom "shut"] => some .shut
+  | .list [.atom "tfire"] => some .tfire
+  | _ => none
+
+def toksStr (l : List Nat) : String := toString (SExp.ofNats l)
+
+/-- workers of the `wake` events that directly follow -/
+def followingWakes : List Ev → List Nat
+  | .wake w :: rest => w :: followingWakes rest
+  | _ => []
+
+def popResStr : Option PopRes → String
+  | some (.got b) => toksStr b
+  | some .empty => "()"
+  | some .park => "park"
+  | none => "-"
+
+/-- a notified worker that has not run its wake step yet -/
+def pendingWake (s : MState) : Bool := s.pcs.contains (.parked true)
+
+/-- replay; answers one result per event, and the final state -/
+def replay : MState → List Ev → List String × MState
+  | s, [] => ([], s)
+  | s, e :: rest =>
+    let picks := followingWakes rest
+    -- a notified worker must have woken before anybody else acts
+    let late : Bool := match e with
+      | .wake _ => false
+      | _ => pendingWake s
+    let cont (r : String) (s' : MState) : List String × MState :=
+      let (rs, sf) := replay s' rest
+      (r :: rs, sf)
+    let go (m : Step) (show_ : MState → Option PopRes → String) : List String × MState :=
+      match stepR s m with
+      | none => cont "!disabled" s
+      | some (s', r) => cont (if late then "!unwoken" else show_ s' r) s'
+    match e with
+    | .xpush toks => go (.xpush toks (if s.isOpen then picks else [])) (fun _ _ => "-")
+    | .pop w => go (.popBegin w) (fun _ r => popResStr r)
+    | .wake w =>
+      -- the implementation has no spurious wake-ups (parking_lot): a wake must have been notified
+      if s.pcs[w]? == some (.parked true) then go (.wake w) (fun _ r => popResStr r)
+      else cont "!spurious" s
+    | .push w n => go (.push w n (if s.isOpen then picks else [])) (fun _ _ => "-")
+    | .split w => go (.split w (if s.isOpen then picks else [])) (fun s' _ => toksStr (s'.locs.getD w []))
+    | .work w c fresh => go (.work w c fresh) (fun _ _ => "-")
+    | .drop w => go (.drop w) (fun _ _ => "-")
+    | .xdrop => go .xdrop (fun _ _ => "-")
+    | .tfire => go .timeoutFire (fun _ _ => "-")
+    | .clone => cont (if late then "!unwoken" else "-") s
+    | .closed => cont (if late then "!unwoken" else bstr (isClosed s)) s
+    | .shut => cont (if late then "!unwoken" else bstr (isShutDown s)) s
+
+/-! ### oracle: bookkeeping over observations only -/
+
+structure Obs where
+  market : List Nat := []          -- jobs handed to the market and not handed out yet (multiset)
+  emptyBatches : Nat := 0
+  locs : List (List Nat)
+  parked : List Nat := []
+  exited : List Nat := []
+  created : List Nat := []
+  shutSeen : Bool := false         -- an `is_shut_down()` probe answered true
+  dropSeen : Bool := false         -- some clone was dropped
+  mustWake : List Nat := []        -- workers that were asleep when a clone was dropped and have not woken yet
+
+def eraseAll? (l : List Nat) : List Nat → Option (List Nat)
+  | [] => some l
+  | t :: ts => if l.contains t then eraseAll? (l.erase t) ts else none
+
+def resToks? : SExp → Option (List Nat) := SExp.nats?
+
+def awake (o : Obs) (k : Nat) : List Nat :=
+  (List.range k).filter fun w => !o.parked.contains w && !o.exited.contains w
+
+/-- checks at the end of a sequence that the harness has drained (it popped every batch it knew of) -/
+def oracleEnd (o : Obs) : Option String :=
+  if !o.mustWake.isEmpty then some "a-worker-asleep-at-a-stop-never-woke"
+  else if !o.shutSeen && !o.dropSeen && !o.market.isEmpty then some "jobs-left-on-an-open-market-after-drain"
+  else none
+
+def oracle (k : Nat) : Obs → List Ev → List SExp → Except String Obs
+  | o, [], [] => .ok o
+  | _, [], _ => .error "malformed"
+  | _, _, [] => .error "malformed"
+  | o, e :: es, r :: rs =>
+    let closedKnown := o.shutSeen || o.dropSeen
+    let active (w : Nat) : Bool := w < k && !o.parked.contains w && !o.exited.contains w
+    -- a worker may only act when awake; sleepers of a drop must wake before anything else happens
+    let pre : Option String := match e with
+      | .wake w => if o.parked.contains w then none else some "wake-of-a-worker-that-was-not-asleep"
+      | .pop w | .push w _ | .split w | .work w _ _ | .drop w =>
+        if !active w then some "harness:inactive-worker-acts"
+        else if !o.mustWake.isEmpty then some "a-worker-asleep-at-a-stop-did-not-wake"
+        else none
+      | _ => if !o.mustWake.isEmpty then some "a-worker-asleep-at-a-stop-did-not-wake" else none
+    match pre with
+    | some err => .error err
+    | none =>
+    let popLike (w : Nat) (isWake : Bool) : Except String Obs :=
+      let o := { o with parked := o.parked.erase w, mustWake := o.mustWake.erase w }
+      match r with
+      | .atom "park" =>
+        if !o.market.isEmpty then .error "worker-sleeps-while-jobs-are-on-the-market"
+        else if o.emptyBatches > 0 then .error "worker-sleeps-while-a-batch-is-on-the-market"
+        else if (awake o k).all (· == w) then .error "everybody-asleep:nobody-left-to-wake-them"
+        else if !isWake && closedKnown then .error "pop-sleeps-on-a-closed-market"
+        else oracle k { o with parked := w :: o.parked } es rs
+      | r =>
+        match resToks? r with
+        | none => .error "malformed-result"
+        | some [] =>
+          oracle k { o with emptyBatches := o.emptyBatches - 1 } es rs
+        | some b =>
+          if o.dropSeen then .error "jobs-handed-out-after-a-drop"
+          else if !isWake && o.shutSeen then .error "pop-hands-out-jobs-on-a-closed-market"
+          else match eraseAll? o.market b with
+            | none => .error "job-handed-out-that-is-not-on-the-market(duplicated-or-invented)"
+            | some m' =>
+              oracle k { o with market := m', locs := o.locs.set w (o.locs.getD w [] ++ b) } es rs
+    match e with
+    | .xpush toks =>
+      if toks.any (o.created.contains ·) then .error "harness:token-reused"
+      else
+        let o := { o with created := toks ++ o.created }
+        if closedKnown then oracle k o es rs
+        else if toks.isEmpty then oracle k { o with emptyBatches := o.emptyBatches + 1 } es rs
+        else oracle k { o with market := toks ++ o.market } es rs
+    | .pop w => popLike w false
+    | .wake w => popLike w true
+    | .push w n =>
+      let loc := o.locs.getD w []
+      let o' := { o with locs := o.locs.set w (loc.drop n) }
+      if closedKnown then oracle k o' es rs
+      else if (loc.take n).isEmpty then oracle k { o' with emptyBatches := o'.emptyBatches + 1 } es rs
+      else oracle k { o' with market := loc.take n ++ o'.market } es rs
+    | .split w =>
+      match resToks? r with
+      | none => .error "malformed-result"
+      | some after =>
+        let loc := o.locs.getD w []
+        if closedKnown then
+          if after.isEmpty then oracle k { o with locs := o.locs.set w [] } es rs
+          else .error "split-on-a-closed-market-kept-jobs"
+        else if after != loc.take after.length then .error "split-reordered-or-invented-jobs"
+        else oracle k { o with locs := o.locs.set w after, market := loc.drop after.length ++ o.market } es rs
+    | .work w c fresh =>
+      if fresh.any (o.created.contains ·) then .error "harness:token-reused"
+      else
+        let loc := o.locs.getD w []
+        oracle k { o with locs := o.locs.set w (fresh ++ loc.take (loc.length - c)), created := fresh ++ o.created } es rs
+    | .drop w =>
+      oracle k { o with exited := w :: o.exited, locs := o.locs.set w [], dropSeen := true, market := [],
+                        emptyBatches := 0, mustWake := o.parked } es rs
+    | .xdrop =>
+      oracle k { o with dropSeen := true, market := [], emptyBatches := 0, mustWake := o.parked } es rs
+    | .tfire => oracle k { o with shutSeen := true } es rs
+    | .clone => oracle k o es rs
+    | .closed =>
+      match r.bool? with
+      | none => .error "malformed-result"
+      | some b =>
+        -- closed means: shut down, nothing on the market (and all counted workers gone)
+        if b && !(o.market.isEmpty && o.emptyBatches == 0) then .error "is_closed-with-jobs-on-the-market"
+        else if b then oracle k { o with shutSeen := true } es rs
+        else oracle k o es rs
+    | .shut =>
+      match r.bool? with
+      | none => .error "malformed-result"
+      | some b =>
+        if !b && closedKnown then .error "market-reopened-or-stop-not-visible"
+        else if b && !closedKnown then
+          -- closed by the last active worker: legitimate only if nobody is left asleep un-notified
+          -- with jobs around; from now on nothing may be handed out by `pop`
+          if !o.market.isEmpty then .error "closed-by-last-worker-with-jobs-on-the-market"
+          else oracle k { o with shutSeen := true, mustWake := o.parked } es rs
+        else oracle k o es rs
+
 def handle : Drv.Handler
+  | "mk-run", [k, tc, evs] => do
+    let k ← k.nat?; let tc ← tc.nat?
+    let evs ← evs.listOf? evOf?
+    pure ("(" ++ " ".intercalate (replay (init k tc) evs).1 ++ ")")
+  | "o-mk", [k, _tc, evs, rs] => do
+    let k ← k.nat?
+    let evs ← evs.listOf? evOf?
+    let rs ← rs.list?
+    pure (match oracle k { locs := List.replicate k [] } evs rs with
+      | .error err => err
+      | .ok o => (oracleEnd o).getD "ok")
   | _, _ => none
+
 end SR.Drv.C05
